@@ -9,6 +9,7 @@ import (
 	"fmt"
 	"io"
 	"sync"
+	"sync/atomic"
 
 	"filippo.io/age"
 	"filippo.io/age/agessh"
@@ -22,6 +23,13 @@ type Shared struct {
 	Identity  age.Identity
 	Plain     []byte
 	File      []byte // a file for Identity, made before the goroutines start
+	// Files/Plains: further files for the same identity with other plaintexts (for passphrases: other salts and work
+	// factors), decrypted in rotation, so that a value remembered from one file is wrong for the next
+	Files  [][]byte
+	Plains [][]byte
+	// IDs is ONE identity list shared by every goroutine and passed as ids...: a decoy of the same kind first, then Identity
+	IDs  []age.Identity
+	turn int64
 }
 
 var rsaOnce sync.Once
@@ -67,7 +75,7 @@ func NewShared(kind string, n int) (*Shared, error) {
 			return nil, err
 		}
 		s.File = f
-		return s, nil
+		return s, s.more()
 	case "ssh-rsa":
 		rsaOnce.Do(func() { rsaKey, _ = rsa.GenerateKey(rand.Reader, 2048) })
 		i, err := agessh.NewRSAIdentity(rsaKey)
@@ -83,8 +91,58 @@ func NewShared(kind string, n int) (*Shared, error) {
 		return nil, err
 	}
 	s.File = f
-	return s, nil
+	return s, s.more()
 }
+
+// more fills Files/Plains and IDs.
+func (s *Shared) more() error {
+	s.Files, s.Plains = [][]byte{s.File}, [][]byte{s.Plain}
+	for k := 1; k <= 3; k++ {
+		pt := append([]byte(fmt.Sprintf("other plaintext %d ", k)), s.Plain...)
+		r := s.Recipient
+		if s.Kind == "scrypt" {
+			sr, _ := age.NewScryptRecipient("shared passphrase")
+			sr.SetWorkFactor(k) // other work factors as well as other salts
+			r = sr
+		}
+		f, err := EncryptWith(r, pt)
+		if err != nil {
+			return err
+		}
+		s.Files, s.Plains = append(s.Files, f), append(s.Plains, pt)
+	}
+	var decoy age.Identity
+	switch s.Kind {
+	case "x25519":
+		d, err := age.GenerateX25519Identity()
+		if err != nil {
+			return err
+		}
+		decoy = d
+	case "scrypt":
+		d, _ := age.NewScryptIdentity("not the shared passphrase")
+		decoy = d
+	case "ssh-rsa":
+		rsaDecoyOnce.Do(func() { rsaDecoy, _ = rsa.GenerateKey(rand.Reader, 2048) })
+		d, err := agessh.NewRSAIdentity(rsaDecoy)
+		if err != nil {
+			return err
+		}
+		decoy = d
+	default:
+		_, priv, _ := ed25519.GenerateKey(rand.Reader)
+		d, err := agessh.NewEd25519Identity(priv)
+		if err != nil {
+			return err
+		}
+		decoy = d
+	}
+	s.IDs = []age.Identity{decoy, s.Identity}
+	return nil
+}
+
+var rsaDecoyOnce sync.Once
+var rsaDecoy *rsa.PrivateKey
 
 func EncryptWith(r age.Recipient, pt []byte) ([]byte, error) {
 	var buf bytes.Buffer
@@ -104,6 +162,7 @@ func EncryptWith(r age.Recipient, pt []byte) ([]byte, error) {
 // Result of one operation; checked after all goroutines have finished.
 type Result struct {
 	Op   string
+	Idx  int    // dec: which of Files was decrypted
 	File []byte // enc: the file produced
 	Out  []byte // dec: the plaintext obtained
 	Err  error
@@ -116,12 +175,21 @@ func (s *Shared) Do(op string) Result {
 		f, err := EncryptWith(s.Recipient, s.Plain)
 		return Result{Op: op, File: f, Err: err}
 	default:
-		r, err := age.Decrypt(bytes.NewReader(s.File), s.Identity)
+		// files in rotation; alternately the identity alone and the shared identity list (decoy first)
+		t := int(atomic.AddInt64(&s.turn, 1))
+		idx := t % len(s.Files)
+		var r io.Reader
+		var err error
+		if (t/len(s.Files))%2 == 0 {
+			r, err = age.Decrypt(bytes.NewReader(s.Files[idx]), s.Identity)
+		} else {
+			r, err = age.Decrypt(bytes.NewReader(s.Files[idx]), s.IDs...)
+		}
 		if err != nil {
-			return Result{Op: op, Err: err}
+			return Result{Op: op, Idx: idx, Err: err}
 		}
 		b, err := io.ReadAll(r)
-		return Result{Op: op, Out: b, Err: err}
+		return Result{Op: op, Idx: idx, Out: b, Err: err}
 	}
 }
 
@@ -141,8 +209,11 @@ func (s *Shared) Verify(r Result) string {
 		}
 		return ""
 	}
-	if !bytes.Equal(r.Out, s.Plain) {
+	if !bytes.Equal(r.Out, s.Plains[r.Idx]) {
 		return "concurrent decryption returned the wrong plaintext"
+	}
+	if len(s.IDs) == 2 && s.IDs[1] != s.Identity {
+		return "the shared identity list was reordered by a Decrypt call"
 	}
 	return ""
 }
